@@ -194,6 +194,13 @@ def minimise_violation(mod, v, budget_s=30.0):
 def write_replay(prop, seed, tier, v, minimised, used) -> str:
     d = os.path.join(OUT, "replays", prop)
     os.makedirs(d, exist_ok=True)
+    trace = None
+    try:
+        tr = getattr(load_check(prop), "trace", None)
+        if tr is not None:
+            trace = list(tr(minimised))[:400]  # readable event trace of the minimised scenario
+    except Exception:  # noqa: BLE001 - the trace is a convenience, never a reason to lose the replay
+        trace = None
     path = os.path.join(d, f"{_slug(v['sig'])}-{seed}-{v['index']}.json")
     with open(path, "w") as f:
         json.dump(
@@ -206,6 +213,7 @@ def write_replay(prop, seed, tier, v, minimised, used) -> str:
                 "run_index": v["index"],
                 "minimise_executions": used,
                 "scenario": minimised,
+                "trace": trace,
                 "original_scenario": v["scenario"],
             },
             f,
